@@ -141,6 +141,124 @@ def check_connectivity(label, m):
     return fails
 
 
+def elements_for(m):
+    import skfem as fem
+    n = type(m).__name__
+    if n.startswith("MeshLine"):
+        return [fem.ElementLineP1(), fem.ElementLineP2(), fem.ElementLineMini(), fem.ElementLinePp(3), fem.ElementLineHermite()]
+    if n.startswith("MeshTri"):
+        return [fem.ElementTriP1(), fem.ElementTriP2(), fem.ElementTriP3(), fem.ElementTriRT1(), fem.ElementTriMini(), fem.ElementTriCR(),
+                fem.ElementVector(fem.ElementTriP2()), fem.ElementTriP2() * fem.ElementTriP1(), fem.ElementDG(fem.ElementTriP1()), fem.ElementTriMorley(),
+                fem.ElementTriN2(), fem.ElementTriP0()]
+    if n.startswith("MeshQuad"):
+        return [fem.ElementQuad1(), fem.ElementQuad2(), fem.ElementQuadS2(), fem.ElementQuadRT1(), fem.ElementQuadP(3), fem.ElementVector(fem.ElementQuad1()),
+                fem.ElementQuad2() * fem.ElementQuad0()]
+    if n.startswith("MeshTet"):
+        return [fem.ElementTetP1(), fem.ElementTetP2(), fem.ElementTetRT1(), fem.ElementTetN1(), fem.ElementTetMini(), fem.ElementTetCCR(),
+                fem.ElementVector(fem.ElementTetP2()) * fem.ElementTetP0(), fem.ElementTetN1() * fem.ElementTetP1(), fem.ElementTetN1() * fem.ElementTetRT1()]
+    if n.startswith("MeshHex"):
+        return [fem.ElementHex1(), fem.ElementHex2(), fem.ElementHexS2(), fem.ElementHexRT1(), fem.ElementHexS2() * fem.ElementHex0()]
+    if n.startswith("MeshWedge"):
+        return [fem.ElementWedge1()]
+    return []
+
+
+def cells_with(m):
+    """for every vertex / edge / facet: the set of cells containing it (from the cell list alone)."""
+    rd = m.elem.refdom
+    t = m.t
+    nt = t.shape[1]
+    vc, ec, fc = {}, {}, {}
+    for k in range(nt):
+        for v in t[:, k]:
+            vc.setdefault(int(v), set()).add(k)
+        for e in (rd.edges or []) if m.dim() == 3 else []:
+            ec.setdefault(fs(t[list(e), k]), set()).add(k)
+        for f in rd.facets:
+            fc.setdefault(fs(t[list(f), k]), set()).add(k)
+    return vc, ec, fc
+
+
+def check_dofs(label, m):
+    import skfem as fem
+    fails = []
+    vc, ec, fc = cells_with(m)
+    nt = m.t.shape[1]
+    for e in elements_for(m):
+        name = type(e).__name__ + ("(%s)" % ",".join(type(x).__name__ for x in e.elems) if hasattr(e, "elems") else "")
+        try:
+            basis = fem.CellBasis(m, e)
+        except Exception as ex:
+            fails.append("%s: Basis raised %s: %s" % (name, type(ex).__name__, ex))
+            continue
+        d = basis.dofs
+        ed = d.element_dofs
+        N = basis.N
+        used = np.unique(ed)
+        if used.tolist() != list(range(N)) or d.N != N:
+            fails.append("%s: numbers used are not exactly 0..N-1 (N=%d, %d used, max %d)" % (name, N, len(used), int(used.max())))
+            continue
+        counts = e._bfun_counts()
+        if ed.shape != (int(counts.sum()), nt) or basis.Nbfun != ed.shape[0]:
+            fails.append("%s: element_dofs shape %s vs counts %s" % (name, ed.shape, counts.tolist()))
+            continue
+        owner = {}
+        for k in range(nt):
+            for g in ed[:, k]:
+                owner.setdefault(int(g), set()).add(k)
+        # expected sharing from the tables
+        exp = {}
+        for r in range(d.nodal_dofs.shape[0]):
+            for v in range(d.nodal_dofs.shape[1]):
+                exp[int(d.nodal_dofs[r, v])] = vc.get(v, set())
+        if m.dim() == 3 and d.edge_dofs.size:
+            for r in range(d.edge_dofs.shape[0]):
+                for q in range(d.edge_dofs.shape[1]):
+                    exp[int(d.edge_dofs[r, q])] = ec[fs(m.edges[:, q])]
+        if d.facet_dofs.size and m.dim() >= 2:
+            for r in range(d.facet_dofs.shape[0]):
+                for q in range(d.facet_dofs.shape[1]):
+                    exp[int(d.facet_dofs[r, q])] = fc[fs(m.facets[:, q])]
+        for r in range(d.interior_dofs.shape[0]):
+            for k in range(nt):
+                exp[int(d.interior_dofs[r, k])] = {k}
+        if m.dim() == 1 and d.facet_dofs.size:
+            pass
+        if len(exp) != N:
+            fails.append("%s: the per-entity tables name %d distinct numbers, N = %d (tables overlap or leave gaps)" % (name, len(exp), N))
+            continue
+        badg = [g for g in range(N) if owner.get(g) != exp.get(g)]
+        if badg:
+            g = badg[0]
+            fails.append("%s: DOF %d is referenced by cells %s but its entity lies in cells %s" % (name, g, sorted(owner.get(g, [])), sorted(exp.get(g, []))))
+            continue
+        # DOF locations: single valued and equal to the mapped reference locations
+        if hasattr(basis, "doflocs") and hasattr(e, "doflocs"):
+            X = np.asarray(e.doflocs, dtype=float)
+            ok_rows = [j for j in range(min(X.shape[0], ed.shape[0])) if not np.isnan(X[j]).any()]
+            if ok_rows:
+                F = basis.mapping.F(X[ok_rows].T)
+                for jj, j in enumerate(ok_rows):
+                    loc = basis.doflocs[:, ed[j]]
+                    if not np.allclose(loc, F[:, :, jj], atol=1e-12):
+                        fails.append("%s: doflocs of local DOF %d disagree with the mapped reference location" % (name, j))
+                        break
+        # shape + locality of an assembled matrix
+        try:
+            A = fem.BilinearForm(lambda *a: 1.0 + 0 * a[-1].x[0], nargs=None).assemble(basis) if False else fem.BilinearForm(lambda *a: 1.0 + 0 * a[-1].x[0]).assemble(basis)
+            if A.shape != (N, N):
+                fails.append("%s: matrix shape %s, N = %d" % (name, A.shape, N))
+            else:
+                A = A.tocoo()
+                for i, j in zip(A.row, A.col):
+                    if not (owner[int(i)] & owner[int(j)]):
+                        fails.append("%s: matrix entry (%d,%d) couples DOFs that share no cell" % (name, i, j))
+                        break
+        except Exception as ex:
+            fails.append("%s: assembly raised %s: %s" % (name, type(ex).__name__, ex))
+    return fails
+
+
 def check_large(label, m):
     """overflow probe: entity tables of a mesh with > 2**16 randomly numbered vertices against an int64 recomputation."""
     fails = []
@@ -205,7 +323,7 @@ def run(payload):
     tier, seed = payload.get("tier", "quick"), int(payload.get("seed", 0))
     only = payload.get("only")
     cases, failures, samples = 0, [], []
-    fn = {"connectivity": check_connectivity}[what]
+    fn = {"connectivity": check_connectivity, "dofs": check_dofs}[what]
     nb = {}
     for label, m in Z.zoo(tier, seed):
         if only and label != only:
